@@ -44,7 +44,7 @@ ASSET_CLASSES = ["ETF", "Stock", "Index"]
 KINDS = ["obj", "clone", "str", "chain"]
 HIST_FIELDS = ("time", "bid_price", "ask_price", "mid_price", "bid_size", "ask_size")
 
-RULE = ("Hypothesis draws 2-5 distinct contracts (ETF/Stock/Index assets, ES/ZN/NK/VX futures instances and two user-defined Future subclasses CL/HO "
+RULE = ("histories: Hypothesis draws 2-5 distinct contracts (ETF/Stock/Index assets, ES/ZN/NK/VX futures instances and two user-defined Future subclasses CL/HO "
         "whose last trading date carries a time of day, 0-2 "
         "FutureChain objects built from start/end or from an explicit unsorted contract list, with month offset 0, 1 "
         "or 2; a plain future may alias a chain member), an observation mode (compare after every op / only books "
@@ -54,7 +54,9 @@ RULE = ("Hypothesis draws 2-5 distinct contracts (ETF/Stock/Index assets, ES/ZN/
         "Non-trivial = at least 2 distinct symbols received an accepted quote AND at least one discontinuation was "
         "followed by a later quote addressed to the dead book AND at least one query went through a non-identity key "
         "(new object with the same symbol / symbol string / chain; with observe=end, where query ops are skipped, the "
-        "final comparison through clone or string keys counts).")
+        "final comparison through clone or string keys counts). keyed-env: a price series published on a chain key (ES, NK, ZN, VX, month offset 0-1) "
+        "is played through a TradingEnv over grids straddling a last-trading date; each book's history must hold exactly the quotes whose own "
+        "timestamp makes that contract the lead (non-trivial = the series crosses a roll).")
 ASSUMPTIONS = [
     "oracle = naive dict model symbol -> {alive, bid, ask, sizes, history}; comparisons are exact (NaN-aware ==): the "
     "model performs the same single IEEE operations (ask+bid)/2 and ask-bid, no tolerance is needed",
@@ -754,7 +756,20 @@ def histories(draw, tier="quick"):
     return {"contracts": list(contracts), "view": view, "observe": observe, "ops": ops}
 
 
-PARTS = [Part("histories", strategy=lambda tier: histories(tier), run=run_history, quick=6000, thorough=80000)]
+def _keyed(case):
+    # "a futures-chain key always addresses the book of its current lead contract", seen through an environment: a price
+    # series published on the chain key is played through TradingEnv (generator, model and oracle shared with C11)
+    from props import c11
+    return c11.run_keyed(case)
+
+
+def _keyed_cases(tier):
+    from props import c11
+    return c11.keyed_cases(tier)
+
+
+PARTS = [Part("histories", strategy=lambda tier: histories(tier), run=run_history, quick=6000, thorough=80000),
+         Part("keyed-env", strategy=_keyed_cases, run=_keyed, quick=800, thorough=20000)]
 
 
 # ---------------------------------------------------------------------------------------------------
